@@ -15,6 +15,11 @@
 //                        WithContext while the others wait               -> (0 (tid id)...)
 //   (3 n m)              n goroutines x m (WithContext; Tf) at full speed  -> (0 total duplicates)
 //   (5 n m)              n goroutines x m logging calls, all levels       -> (0 lines bad)
+//   (6 pid (op...))      writer management, one goroutine: (0 w) Switch(writer w), (1) Close(),
+//                        (2 lvl fn kind ref (m..)) logging call (kind 2: context with cid ref, ref<0 none)
+//                        -> (0) | (1 writer-whose-Close-ran) | (2 writer-that-received-the-line x<line>)
+//   (7 n m (op...))      Switch(0); n goroutines x m lines; the ops; n x m lines again
+//                        -> (0 writerA countA writerB countB bad)
 // Timestamps are checked for their shape and their digits replaced by 0 in the observation.
 //
 // Direct oracles (independent of the model): every id ever returned by WithContext in this
@@ -643,6 +648,371 @@ func vC18LogStress(c vSx) (vSx, vSx, []vC18Fail, bool) {
 	return c, vL(vZ(0), vI(len(ws)), vI(nbad)), fails, switches > n
 }
 
+// ---- kinds 6 and 7: the writer-management API (Switch / Close)
+// writers 0,1: capture writers that are io.Closers; 2: a plain capture writer; 3: a writer whose
+// dynamic type is NOT comparable (struct with a slice) -- comparing it with == panics at run time
+type vC18WCloser struct {
+	vC18Cap
+	closed int
+}
+
+func (w *vC18WCloser) Close() error { w.closed++; return nil }
+
+type vC18Weird struct {
+	cap  *vC18Cap
+	junk []int
+}
+
+func (w vC18Weird) Write(p []byte) (int, error) { return w.cap.Write(p) }
+
+type vC18Pool struct {
+	closers [2]*vC18WCloser
+	plain   *vC18Cap
+	weird   vC18Weird
+}
+
+func vC18NewPool() *vC18Pool {
+	return &vC18Pool{closers: [2]*vC18WCloser{{}, {}}, plain: &vC18Cap{}, weird: vC18Weird{cap: &vC18Cap{}, junk: []int{1}}}
+}
+func (p *vC18Pool) writer(w int) io.Writer {
+	switch w {
+	case 0, 1:
+		return p.closers[w]
+	case 2:
+		return p.plain
+	}
+	return p.weird
+}
+func (p *vC18Pool) cap(w int) *vC18Cap {
+	switch w {
+	case 0, 1:
+		return &p.closers[w].vC18Cap
+	case 2:
+		return p.plain
+	}
+	return p.weird.cap
+}
+
+// Switch with a recover: a panic (e.g. from comparing writers) is an oracle failure
+func vC18Switch(w io.Writer) (msg string) {
+	defer func() {
+		if r := recover(); r != nil {
+			msg = fmt.Sprint(r)
+		}
+	}()
+	Switch(w)
+	return ""
+}
+
+func vC18Silence() func() {
+	old := os.Stdout
+	dn, err := os.OpenFile(os.DevNull, os.O_WRONLY, 0)
+	if err != nil {
+		return func() {}
+	}
+	os.Stdout = dn // Warn/Error colour os.Stdout while no closer is installed
+	return func() { os.Stdout = old; dn.Close() }
+}
+
+func vC18Manage(c vSx) (vSx, vSx, []vC18Fail, bool) {
+	var fails []vC18Fail
+	bad := func(o, d string) {
+		if len(fails) < 20 {
+			fails = append(fails, vC18Fail{o, d})
+		}
+	}
+	defer vC18Silence()()
+	pid := os.Getpid()
+	ops := c.l[2].l
+	c = vL(vZ(6), vI(pid), vLs(ops))
+	Close() // forget whatever an earlier case installed
+	pool := vC18NewPool()
+	cur := -2 // statement-level expectation: -2 before the first Switch of the case, -1 closed, else the writer
+	sawSwitchAfterClose, sawSame := false, false
+	var out []vSx
+	for _, op := range ops {
+		if !op.isList() || len(op.l) == 0 || !op.l[0].isInt() {
+			out = append(out, vL(vZ(-1)))
+			continue
+		}
+		switch {
+		case op.l[0].i64() == 0 && len(op.l) == 2 && op.l[1].isInt() && op.l[1].int() >= 0 && op.l[1].int() <= 3:
+			w := op.l[1].int()
+			if m := vC18Switch(pool.writer(w)); m != "" {
+				bad("switch-panics", fmt.Sprintf("Switch(writer %d) panicked: %s", w, m))
+			}
+			if cur == -1 {
+				sawSwitchAfterClose = true
+			}
+			if cur == w {
+				sawSame = true
+			}
+			cur = w
+			out = append(out, vL(vZ(0)))
+		case op.l[0].i64() == 1 && len(op.l) == 1:
+			before := [2]int{pool.closers[0].closed, pool.closers[1].closed}
+			Close()
+			closedW := -1
+			for i := 0; i < 2; i++ {
+				if pool.closers[i].closed != before[i] {
+					closedW = i
+				}
+			}
+			cur = -1
+			out = append(out, vL(vZ(1), vI(closedW)))
+		case op.l[0].i64() == 2 && len(op.l) == 6 && op.l[5].isList():
+			lvl, fn, kind, ref := op.l[1].int(), op.l[2].int(), op.l[3].int(), op.l[4].int()
+			var args []interface{}
+			var strs []string
+			okArgs := true
+			for _, m := range op.l[5].l {
+				if !m.isBytes() {
+					okArgs = false
+					break
+				}
+				args = append(args, string(m.b))
+				strs = append(strs, string(m.b))
+			}
+			if !okArgs || cur == -2 {
+				out = append(out, vL(vZ(-1)))
+				continue
+			}
+			var ctx Context
+			cid, hasCid := 0, false
+			switch kind {
+			case 0:
+			case 1:
+				ctx = &vC18Obj{cid: ref}
+				cid, hasCid = ref, true
+			case 2:
+				if ref >= 0 {
+					ctx = context.WithValue(context.Background(), cidKey, ref)
+					cid, hasCid = ref, true
+				} else {
+					ctx = context.Background()
+				}
+			default:
+				kind = 3
+				ctx = vC18Other{x: ref}
+			}
+			for w := 0; w < 4; w++ {
+				pool.cap(w).take()
+			}
+			format := strings.Repeat("%v", len(args))
+			msg := strings.Join(strs, " ")
+			if fn != 0 {
+				fn = 1
+				msg = strings.Join(strs, "")
+			}
+			call := func(l Logger, short func(Context, ...interface{}), shortf func(Context, string, ...interface{})) {
+				switch {
+				case fn == 0 && len(msg)%2 == 0:
+					short(ctx, args...)
+				case fn == 0:
+					l.Println(ctx, args...)
+				case len(msg)%2 == 0:
+					shortf(ctx, format, args...)
+				default:
+					l.Printf(ctx, format, args...)
+				}
+			}
+			live := true
+			switch lvl {
+			case 1:
+				call(Trace, T, Tf)
+			case 2:
+				call(Warn, W, Wf)
+			case 3:
+				call(Error, E, Ef)
+			default:
+				live = false
+				call(Info, I, If)
+			}
+			gotW, gotLine := -1, []byte{}
+			total := 0
+			for w := 0; w < 4; w++ {
+				ws := pool.cap(w).take()
+				total += len(ws)
+				if len(ws) > 0 {
+					gotW = w
+					gotLine = ws[0]
+				}
+			}
+			wantW := cur
+			if !live {
+				wantW = -1
+			}
+			switch {
+			case wantW < 0 && total != 0:
+				bad("silent-when-closed", fmt.Sprintf("level %d wrote %d time(s) to writer %d although nothing should be emitted (closed / Info)", lvl, total, gotW))
+			case wantW >= 0 && total == 0:
+				bad("line-reaches-current-writer", fmt.Sprintf("level %d logged after Switch(writer %d) returned, but no writer received anything", lvl, wantW))
+			case wantW >= 0 && (total != 1 || gotW != wantW):
+				bad("line-reaches-current-writer", fmt.Sprintf("level %d: %d Write call(s), last on writer %d; the current writer is %d", lvl, total, gotW, wantW))
+			}
+			line := []byte{}
+			if total > 0 {
+				gl, rest, z, ok := vC18Split(gotLine)
+				if !ok || gl != lvl {
+					bad("line-header", fmt.Sprintf("level %d wrote %q", lvl, gotLine))
+					line = gotLine
+				} else {
+					line = z
+					if d := vC18LineOK(rest, vC18WantPrefix(pid, kind, cid, hasCid), msg); d != "" {
+						bad("line-format", d)
+					}
+				}
+			}
+			out = append(out, vL(vZ(2), vI(gotW), vB(line)))
+		default:
+			out = append(out, vL(vZ(-1)))
+		}
+	}
+	Close()
+	return c, vLs(out), fails, sawSwitchAfterClose || sawSame
+}
+
+// n goroutines log m lines, stop at a barrier while the driver runs writer-management ops, and log m
+// lines again (the Switch does not race with the logging: logger's package variables are not
+// synchronised by design)
+func vC18ManageConc(c vSx) (vSx, vSx, []vC18Fail, bool) {
+	var fails []vC18Fail
+	bad := func(o, d string) {
+		if len(fails) < 20 {
+			fails = append(fails, vC18Fail{o, d})
+		}
+	}
+	n, m := c.l[1].int(), c.l[2].int()
+	if n < 1 || n > 64 || m < 1 || m > 5000 || !c.l[3].isList() {
+		return c, vL(vZ(-1)), nil, false
+	}
+	defer vC18Silence()()
+	Close()
+	pool := vC18NewPool()
+	cur := 0
+	if msg := vC18Switch(pool.writer(0)); msg != "" {
+		bad("switch-panics", msg)
+	}
+	batch := func(tag string) bool {
+		var wg sync.WaitGroup
+		for g := 0; g < n; g++ {
+			wg.Add(1)
+			go func(g int) {
+				defer wg.Done()
+				ctx := &vC18Obj{cid: 100 + g}
+				for i := 0; i < m; i++ {
+					switch i % 6 {
+					case 0:
+						T(ctx, tag, g, i)
+					case 1:
+						Wf(ctx, "%v %v %v", tag, g, i)
+					case 2:
+						E(ctx, tag, g, i)
+					case 3:
+						Tf(ctx, "%v %v %v", tag, g, i)
+					case 4:
+						W(ctx, tag, g, i)
+					default:
+						Ef(ctx, "%v %v %v", tag, g, i)
+					}
+				}
+			}(g)
+		}
+		return vC18Wait(&wg, time.Duration(5+n*m/5000)*time.Second)
+	}
+	nbad := 0
+	count := func(tag string, want int) (int, int) {
+		gotW, cnt := -1, 0
+		for w := 0; w < 4; w++ {
+			ws := pool.cap(w).take()
+			for _, p := range ws {
+				_, rest, _, ok := vC18Split(p)
+				if !ok || !strings.Contains(string(rest), "] ") || !strings.Contains(string(rest), tag+" ") || !strings.HasSuffix(string(rest), "\n") || bytes.Count(p, []byte("\n")) != 1 {
+					nbad++
+					bad("whole-line", fmt.Sprintf("writer %d received %q", w, p))
+				}
+			}
+			if len(ws) > 0 {
+				if w != want {
+					bad("line-reaches-current-writer", fmt.Sprintf("batch %s: writer %d received %d line(s), the current writer is %d", tag, w, len(ws), want))
+				}
+				gotW = w
+				cnt += len(ws)
+			}
+		}
+		wantN := n * m
+		if want < 0 {
+			wantN = 0
+		}
+		if cnt != wantN {
+			bad("line-reaches-current-writer", fmt.Sprintf("batch %s: %d of %d lines reached a writer (current writer %d)", tag, cnt, wantN, want))
+		}
+		return gotW, cnt
+	}
+	if !batch("A") {
+		return c, vL(vZ(-2)), append(fails, vC18Fail{"goroutine-hung", "logging goroutines did not finish (abandoned)"}), false
+	}
+	aw, ac := count("A", cur)
+	for _, op := range c.l[3].l {
+		if !op.isList() || len(op.l) == 0 || !op.l[0].isInt() {
+			continue
+		}
+		if op.l[0].i64() == 0 && len(op.l) == 2 && op.l[1].isInt() && op.l[1].int() >= 0 && op.l[1].int() <= 3 {
+			if msg := vC18Switch(pool.writer(op.l[1].int())); msg != "" {
+				bad("switch-panics", msg)
+			}
+			cur = op.l[1].int()
+		} else if op.l[0].i64() == 1 && len(op.l) == 1 {
+			Close()
+			cur = -1
+		}
+	}
+	if !batch("B") {
+		return c, vL(vZ(-2)), append(fails, vC18Fail{"goroutine-hung", "logging goroutines did not finish (abandoned)"}), false
+	}
+	bw, bc := count("B", cur)
+	Close()
+	return c, vL(vZ(0), vI(aw), vI(ac), vI(bw), vI(bc), vI(nbad)), fails, true
+}
+
+func vC18GenManage(r *vRng) vSx {
+	var ops []vSx
+	logOp := func() vSx {
+		kind := r.pickInt(0, 1, 2, 2, 3)
+		ref := r.pickInt(-1, 0, 7, 1000, 65535)
+		if kind == 1 {
+			ref = r.pickInt(0, 7, -5, 2147483647)
+		}
+		var ms []vSx
+		for j, k := 0, r.pickInt(0, 1, 1, 2); j < k; j++ {
+			ms = append(ms, vC18Msg(r))
+		}
+		return vL(vZ(2), vI(r.pickInt(1, 2, 3, 1, 2, 3, 4)), vI(r.intn(2)), vI(kind), vI(ref), vLs(ms))
+	}
+	ops = append(ops, vL(vZ(0), vI(r.intn(4))))
+	last := -1
+	for i, n := 0, r.rng(3, 14); i < n; i++ {
+		switch r.intn(7) {
+		case 0:
+			last = r.intn(4)
+			ops = append(ops, vL(vZ(0), vI(last)))
+		case 1:
+			if last >= 0 {
+				ops = append(ops, vL(vZ(0), vI(last))) // the same writer again
+			}
+		case 2:
+			ops = append(ops, vL(vZ(1)))
+			if r.chance(2, 3) && last >= 0 {
+				ops = append(ops, vL(vZ(0), vI(last))) // Close, then the same writer
+			}
+		default:
+			ops = append(ops, logOp())
+		}
+	}
+	ops = append(ops, logOp())
+	return vL(vZ(6), vZ(0), vLs(ops))
+}
+
 // ---- generators
 func vC18Msg(r *vRng) vSx {
 	switch r.intn(10) {
@@ -729,6 +1099,10 @@ func TestVerifC18(t *testing.T) {
 			c, obs, fails, nt = vC18Stress(c)
 		case kind == 5 && len(c.l) == 3:
 			c, obs, fails, nt = vC18LogStress(c)
+		case kind == 6 && len(c.l) == 3 && c.l[2].isList():
+			c, obs, fails, nt = vC18Manage(c)
+		case kind == 7 && len(c.l) == 4 && c.l[1].isInt() && c.l[2].isInt():
+			c, obs, fails, nt = vC18ManageConc(c)
 		default:
 			obs = vL(vZ(-1))
 		}
@@ -759,8 +1133,19 @@ func TestVerifC18(t *testing.T) {
 	for _, s := range logst {
 		runOne(vL(vZ(5), vI(s[0]), vI(s[1])))
 	}
+	// writer management: goroutines logging across Switch / Close sequences
+	sw := func(w int) vSx { return vL(vZ(0), vI(w)) }
+	cl := vL(vZ(1))
+	mids := [][]vSx{{sw(1)}, {sw(0)}, {sw(0), sw(0)}, {sw(1), sw(0)}, {cl, sw(0)}, {cl, sw(1)}, {cl}, {sw(2), cl, sw(2)}, {sw(3), sw(3)}, {sw(1), cl, sw(1), cl, sw(1)}}
+	for i, mid := range mids {
+		runOne(vL(vZ(7), vI(2+i%7), vI(k.N(60, 600)/2), vLs(mid)))
+	}
 	n := k.N(1200, 20000)
 	for i := 0; i < n; i++ {
+		if i%4 == 3 {
+			runOne(vC18GenManage(k.rnd))
+			continue
+		}
 		if i%10 == 9 {
 			runOne(vC18GenSerial(k.rnd))
 		} else {
